@@ -32,7 +32,9 @@ IDS_A = "forall(lambda j: implies(0 <= j and j < len(collected), id(collected[j]
 PREFIX = ("len(collected) >= {0}(len(collected)) and forall(lambda j: implies(0 <= j and j < {0}(len(collected)),"
           " collected[j] == {0}(collected[j])))")
 IN_COLLECTED = "exists_in(0, len(collected), lambda j: collected[j] == {x})"
-PROT = ["list(collected)", "dict(collected_ids)", "cls(elem).*", "cls(cls(elem)).*"]
+# ATTR:_tx_attrs = the attribute _tx_attrs of every object (classes and metaclasses): the traversal, the
+# callbacks and the recursion leave the metamodel's attribute tables alone
+PROT = ["list(collected)", "dict(collected_ids)", "ATTR:_tx_attrs"]
 AT_LOOP = PREFIX.replace("{0}(", "at('loop_entry', ")
 
 SELECTOR = Ext("selector", note="user predicate: which objects are of interest", protect=PROT)
@@ -50,11 +52,15 @@ Unit(
     calls={"selector": SELECTOR, "should_follow": SHOULD_FOLLOW,
            "collected.append": "list.append", "collected_ids.add": "set.add"},
     modifies=["*"],
-    protects=[],
-    ext_protect=PROT,
+    protects=["ATTR:_tx_attrs"],
+    # (unit-wide protection also applies to the recursive call, which DOES append to the accumulators: only the
+    # class rows are protected here; the accumulators are protected from the two callbacks individually)
+    ext_protect=PROT[2:],
     loops={
-        "for:cls._tx_attrs.items()": Loop(modifies=["*"], inv=INV, protect=PROT),
-        "for:new_elem_list": Loop(modifies=["*"], inv=INV, protect=PROT),
+        # (an iteration appends to the accumulators - through the recursive call - so only the class rows are
+        # left unchanged by the loop bodies; the accumulators are carried by the invariants)
+        "for:cls._tx_attrs.items()": Loop(modifies=["*"], inv=INV, protect=PROT[2:]),
+        "for:new_elem_list": Loop(modifies=["*"], inv=INV, protect=PROT[2:]),
     },
     ensures=[
         ("I1-no-object-twice", NODUP),
@@ -90,8 +96,8 @@ Unit(
     requires=["collected != collected_ids", "distinct(elem, attr, collected, collected_ids)",
               ("I1-no-object-twice", NODUP), ("I2-every-collected-id-recorded", IDS_A)],
     calls={"should_follow": SHOULD_FOLLOW},
-    ext_protect=PROT + ["attr.*"],
-    loops={"for:new_elem_list": Loop(modifies=["*"], inv=[], step=False, protect=PROT,
+    ext_protect=PROT[2:] + ["attr.*"],
+    loops={"for:new_elem_list": Loop(modifies=["*"], inv=[], step=False, protect=PROT[2:],
                                      body_unit="model.get_children.follow.per-list-element")},
     ensures=[
         ("C05-references-never-introduce-children",
@@ -116,7 +122,6 @@ Unit(
     captured=CAPT,
     requires=["collected != collected_ids", ("I1-no-object-twice", NODUP), ("I2-every-collected-id-recorded", IDS_A)],
     calls={"should_follow": Ext("should_follow", note="user predicate: which objects are traversed", protect=PROT[:2])},
-    ext_protect=PROT[:2],
     ensures=[
         ("C05-list-child-visited-iff-should-follow-accepts-it",
          "n_calls('should_follow') == 1 and evn('should_follow', 0).args[0] == new_elem"
